@@ -467,7 +467,11 @@ func (p *Proxy) handleConnectRequest(ctx *Context, req *http.Request, session *S
 
 	donec := make(chan bool, 2)
 	go copySync(cbw, brw, cconn, donec)
-	go copySync(brw, cbr, conn, donec)
+	// Straight to the client connection as well (brw's writer has just been
+	// flushed): through brw, bufio.Writer.ReadFrom keeps the target's bytes
+	// back until 4096 have accumulated whenever conn has no ReadFrom of its
+	// own (TLS listener, wrapped connections).
+	go copySync(conn, cbr, conn, donec)
 
 	log.Debugf("martian: established CONNECT tunnel, proxying traffic")
 	<-donec
